@@ -24,6 +24,8 @@ def known_finding(case, kind, detail):
     k = C14.known_finding(case, kind, detail)
     if k:
         return k
+    if g == "CambridgeSampler" and "bloc-first ballots" in d and any(case["cohesion"][b][b] in (0.0, 1.0) for b in case["blocs"]):
+        return "cambridge-cohesion-endpoints"
     if g == "AlternatingCrossover" and "misaligned" in d:
         return "ac-internal-order-misaligned"
     if g == "slate_BT_MCMC" and "acceptance probability above 1" in d:
@@ -195,6 +197,25 @@ def run_case(case):
                 pos += 2
                 if oracle:
                     break
+    elif g == "CambridgeSampler":
+        # bloc-first versus opposing-first ballots in the apportioned cohesion split
+        aps = run["apportion"]
+        props = [x for b in case["blocs"] for x in (case["cohesion"][b][b] * case["props"][b], (1 - case["cohesion"][b][b]) * case["props"][b])]
+        if len(aps) != 1 or [round(x, 12) for x in aps[0]["props"]] != [round(x, 12) for x in props] or aps[0]["n"] != case["N"]:
+            oracle.append("bloc-first / opposing-first counts are not one Huntington-Hill apportionment of N by cohesion*share and (1-cohesion)*share")
+        else:
+            import apportionment.methods as A
+            want = [int(x) for x in A.compute("huntington", props, case["N"])]
+            for i, b in enumerate(case["blocs"]):
+                own = set(case["slates"][b])
+                by = run["by_bloc"][b]
+                first_own = sum(bl.weight for bl in by.ballots if bl.ranking and next(iter(bl.ranking[0])) in own)
+                total = by.total_ballot_wt
+                if total != want[2 * i] + want[2 * i + 1]:
+                    oracle.append(f"bloc {b}: {total} ballots, apportioned {want[2 * i] + want[2 * i + 1]}")
+                elif first_own != want[2 * i] and all(len([c for c, v in case["intervals"][b][b2].items() if v > 0]) for b2 in case["blocs"]):
+                    oracle.append(f"bloc {b}: {first_own} bloc-first ballots, the apportioned cohesion split gives {want[2 * i]}")
+        nontrivial = True
     elif g in ("OneDimSpatial", "Spatial", "ClusteredSpatial"):
         pass        # decided by the model correspondence: ballots = candidates stably sorted by recorded distance
     return {"model": model, "oracle": oracle[:3], "tags": tags, "nontrivial": nontrivial}
